@@ -1,5 +1,5 @@
 """C04 — backends reject what they cannot emulate (dispatch structure)."""
-from ..rules import dispatch
+from ..rules import drivers, dispatch
 
 META = {
     "title": "Backends reject what they cannot emulate instead of returning wrong results",
@@ -33,3 +33,4 @@ def check(ctx):
                      {"hamiltonian type": {"hamiltonian_type"}, "level count": {"dim", "eigenstates"}})
     dispatch.solver(ctx)
     dispatch.noise_cover(ctx)
+    drivers.create_impl_table(ctx)
